@@ -42,6 +42,11 @@ var c16Deep2Fixed = []struct {
 	{"lie", false, []string{"c16 w=1 lg=12 salt=16", "a 1 1004 r 4", "t", "dx 1", "xl 0 99000", "t", "db 1", "xm 0", "t", "du 1"}},
 	// nobody takes the lookup: ticks alone never forward the access
 	{"unfair", false, []string{"c16 w=1 lg=12 salt=16", "a 1 1004 r 4", "t", "t", "t", "t", "t", "t", "t", "t"}},
+	// restart NOT preceded by a flush while a memory response waits behind a full top port: the response
+	// is discarded, the in-flight record stays for ever (witness of at_restart_needs_flush); the closing
+	// rounds cannot complete access 1
+	{"restart-no-flush", false, append([]string{"c16 w=1 lg=12 salt=16", "a 1 1004 r 4", "t", "dx 1", "xt 0", "t", "db 1", "xm 0", "t",
+		"a 1 2004 r 4", "t", "dx 1", "xt 0", "t", "db 1", "xm 0", "s", "t", "du 1", "dc 1", "t", "t"}, c16Closing(1, 2)...)},
 	// split scalar load: all but the last piece may wait for coalescing; two pieces share a page
 	{"cwc", true, []string{"c16 w=2 lg=12 salt=16", "a 1 1fc0 r 64 c", "a 1 2000 r 64", "t", "a 2 1fc0 w 0102 11 c", "t", "dx 2", "xt 1", "xt 0", "t", "dx 2", "xt 0", "t", "db 2", "t"}},
 	// scrambled page attributes, flush in the middle
@@ -104,6 +109,12 @@ func runC16Deep2(r *Run, rng *Rng, replay string) {
 			r.Checked("deep2.lie")
 			if e.nFwd != 1 || len(e.oldM) != 1 || c16ReqAddr(e.oldM[0]) != 0x99004 {
 				r.Failf("C16.deep2.lie-not-followed", strings.Join(ops, " ; "), "forwarded %d requests", e.nFwd)
+			}
+		case "restart-no-flush":
+			r.Checked("deep2.restart-no-flush")
+			_, _, infl := e.comp.VerifC16State()
+			if len(infl) != 1 || e.nAns != 1 || e.nRecv != 2 {
+				r.Failf("C16.deep2.restart-no-flush", strings.Join(ops, " ; "), "expected the discarded response to leave 1 in-flight record and 1 of 2 accesses answered: inflight %d, answered %d of %d", len(infl), e.nAns, e.nRecv)
 			}
 		case "straddle":
 			r.Checked("deep2.straddle")
